@@ -108,6 +108,61 @@ func cmpAtom(op token.Token, x, y string) string {
 	return "cmp " + forms[0]
 }
 
+// condTag: the condition that holds on the given edge of an If, in a form that is canonical under operand order and negation.
+func condTag(cond ssa.Value, edgeTrue bool) string {
+	holds := edgeTrue
+	for {
+		if u, ok := cond.(*ssa.UnOp); ok && u.Op == token.NOT {
+			cond, holds = u.X, !holds
+			continue
+		}
+		break
+	}
+	gen := func(v ssa.Value) string {
+		k := operandKind(v)
+		if strings.HasPrefix(k, "call:") || k == "dyncall" || k == "var" || k == "expr" || k == "recv" || k == "v" {
+			return "v"
+		}
+		return k
+	}
+	bo, ok := cond.(*ssa.BinOp)
+	if !ok {
+		return fmt.Sprintf("%s=%v", operandKind(cond), holds)
+	}
+	x, y := gen(bo.X), gen(bo.Y)
+	type form struct {
+		s   string
+		pos bool
+	}
+	var fs []form
+	add := func(o token.Token, a, b string, pos bool) { fs = append(fs, form{fmt.Sprintf("%s(%s,%s)", o, a, b), pos}) }
+	switch bo.Op {
+	case token.EQL:
+		add(token.EQL, x, y, true)
+		add(token.EQL, y, x, true)
+	case token.NEQ:
+		add(token.EQL, x, y, false)
+		add(token.EQL, y, x, false)
+	case token.LSS:
+		add(token.LSS, x, y, true)
+		add(token.LEQ, y, x, false)
+	case token.GTR:
+		add(token.LSS, y, x, true)
+		add(token.LEQ, x, y, false)
+	case token.LEQ:
+		add(token.LEQ, x, y, true)
+		add(token.LSS, y, x, false)
+	case token.GEQ:
+		add(token.LEQ, y, x, true)
+		add(token.LSS, x, y, false)
+	default:
+		return fmt.Sprintf("expr=%v", holds)
+	}
+	sort.Slice(fs, func(i, j int) bool { return fs[i].s < fs[j].s })
+	f := fs[0]
+	return fmt.Sprintf("%s=%v", f.s, holds == f.pos)
+}
+
 type atomSink struct {
 	m      map[string]int
 	suffix string
@@ -128,8 +183,8 @@ func funcAtoms(fn *ssa.Function) map[string]int {
 	var visitAt func(f *ssa.Function, base, level int)
 	visit := func(f *ssa.Function) { visitAt(f, 0, 0) }
 	visitAt = func(f *ssa.Function, base, level int) {
-		reach := blockReach(f)
 		depthOf := map[*ssa.BasicBlock]int{}
+		condsOf := map[*ssa.BasicBlock][]string{}
 		for _, b := range f.Blocks {
 			d := 0
 			for x := b.Idom(); x != nil; x = x.Idom() {
@@ -139,11 +194,17 @@ func funcAtoms(fn *ssa.Function) map[string]int {
 				if _, isIf := x.Instrs[len(x.Instrs)-1].(*ssa.If); !isIf {
 					continue
 				}
-				r0 := x.Succs[0] == b || reach[x.Succs[0]][b]
-				r1 := x.Succs[1] == b || reach[x.Succs[1]][b]
+				// reachability within one pass through x (a later loop iteration does not make both arms "reach" b)
+				ra0, ra1 := reachWithout(x.Succs[0], x), reachWithout(x.Succs[1], x)
+				r0 := x.Succs[0] == b || ra0[b]
+				r1 := x.Succs[1] == b || ra1[b]
 				if r0 && r1 {
 					continue
 				}
+				if ifi, isIf := x.Instrs[len(x.Instrs)-1].(*ssa.If); isIf && (r0 || r1) {
+					condsOf[b] = append(condsOf[b], condTag(ifi.Cond, r0))
+				}
+				reach := map[*ssa.BasicBlock]map[*ssa.BasicBlock]bool{x.Succs[0]: ra0, x.Succs[1]: ra1, b: reachWithout(b, x)}
 				// only an arm of a branch that rejoins counts; code after an early exit ("if err != nil { return }") is not "under" that test
 				other := x.Succs[0]
 				if r0 {
@@ -151,13 +212,23 @@ func funcAtoms(fn *ssa.Function) map[string]int {
 				}
 				rejoin := false
 				for j := range reach[other] {
-					if j != b && reach[b][j] && !reach[j][x] {
+					if j != b && reach[b][j] {
 						rejoin = true
 						break
 					}
 				}
-				if other != b && reach[b][other] && !reach[other][x] {
+				if other != b && reach[b][other] {
 					rejoin = true
+				}
+				if !rejoin {
+					// no rejoin: one side leaves the function early. The exiting arm (the smaller side) is conditional, the continuation is not.
+					mine := x.Succs[0]
+					if !r0 {
+						mine = x.Succs[1]
+					}
+					if len(reach[mine]) < len(reach[other]) {
+						rejoin = true
+					}
 				}
 				if rejoin {
 					d++
@@ -258,6 +329,8 @@ func funcAtoms(fn *ssa.Function) map[string]int {
 				if level > 0 {
 					break // a looked-through helper's returns are not the caller's
 				}
+				conds := append([]string{}, condsOf[in.Block()]...)
+				sort.Strings(conds)
 				var rs []string
 				for i := range x.Results {
 					k := operandKind(retVal(x, i))
@@ -266,7 +339,8 @@ func funcAtoms(fn *ssa.Function) map[string]int {
 					}
 					rs = append(rs, k)
 				}
-				out.add("return("+strings.Join(rs, ",")+")")
+				// a return says under which conditions it is taken (which result goes with which outcome)
+				real["return("+strings.Join(rs, ",")+") when ["+strings.Join(conds, " & ")+"]"]++
 			case *ssa.MakeClosure:
 				visitAt(x.Fn.(*ssa.Function), base, level)
 			case *ssa.Panic:
@@ -511,4 +585,43 @@ func probeSiblingCandidates(c *Ctx) {
 			}
 		}
 	}
+}
+
+func probeAtoms(c *Ctx, key string) {
+	fn := c.Func(key)
+	if fn == nil {
+		fmt.Println("no such function", key)
+		return
+	}
+	a := funcAtoms(fn)
+	var ks []string
+	for k, n := range a {
+		ks = append(ks, fmt.Sprintf("%dx %s", n, k))
+	}
+	sort.Strings(ks)
+	for _, k := range ks {
+		fmt.Println("ATOM", k)
+	}
+}
+
+// reachWithout: blocks reachable from start (over one or more edges, start itself only through a cycle) without entering block avoid.
+func reachWithout(start, avoid *ssa.BasicBlock) map[*ssa.BasicBlock]bool {
+	m := map[*ssa.BasicBlock]bool{}
+	if start == avoid {
+		return m
+	}
+	st := []*ssa.BasicBlock{}
+	for _, s := range start.Succs {
+		st = append(st, s)
+	}
+	for len(st) > 0 {
+		x := st[len(st)-1]
+		st = st[:len(st)-1]
+		if x == avoid || m[x] {
+			continue
+		}
+		m[x] = true
+		st = append(st, x.Succs...)
+	}
+	return m
 }
